@@ -14,7 +14,7 @@ Two kinds of cases, both through the extracted model (bin/c09_driver) and the re
          future: cancelled), nothing but `exit` reaches a handler afterwards, exit status =
          x_exit, and C01's exactly-once at quiescence.
   proc   {"kind": "proc", "transport": "stdio"|"stdio-sync"|"tcp", "msgs": [frame, ..]} - a real
-         server SUBPROCESS (harness/servers/c09_server.py: start_io / _start_io_sync / start_tcp as
+         server SUBPROCESS (harness/servers/c09_server.py: start_io / its private sync variant / start_tcp as
          the last statement of a script); the client plays the frames, the observation is the
          process return code, whether JsonRPCServer.shutdown() ran, the reply to `shutdown`, and
          which requests sent after it were answered; the model side is Model/ExitWrappers.v
@@ -31,6 +31,7 @@ import time
 
 import core
 import sched
+import priv
 
 logging.raiseExceptions = False       # a logging call that fails (recursion storm of the default hook) stays quiet
 SERVER_SCRIPT = os.path.join(core.ROOT, "harness", "servers", "c09_server.py")
@@ -93,12 +94,15 @@ def run_sched(case):
         s.close()
 
 
+@priv.in_worker
 def _run_sched_one(case):
     # the recursion storm of the default hook on a closed transport (model: `storm`) can surface again in
     # Task.__del__ / logging at collection time: harmless, keep stderr clean
     sys.unraisablehook = lambda *a, **k: None
     try:
         return run_sched(case)
+    except priv.Unresolvable:       # a failure of the harness, not an observation of pygls
+        raise
     except BaseException as ex:     # noqa
         return ["raise", type(ex).__name__, str(ex)[:200]]
 
@@ -333,9 +337,12 @@ def run_proc(case):
     return out
 
 
+@priv.in_worker
 def _run_proc_one(case):
     try:
         return run_proc(case)
+    except priv.Unresolvable:
+        raise
     except BaseException as ex:     # noqa
         return ["raise", type(ex).__name__, str(ex)[:200]]
 
@@ -376,7 +383,9 @@ class C09(core.Property):
                     "harness/servers/c09_server.py",
                     "modelled not verified: asyncio task/cancel semantics, concurrent.futures.Future.cancel, dict order, "
                     "SystemExit leaving asyncio.run / a loop callback, the interpreter turning the end of the start_* call "
-                    "into a process status"]
+                    "into a process status",
+                    priv.trusted(sched.PRIVATE + ["server.stop_event", "server.start_io_sync"])]
+    private = sched.PRIVATE + ["server.stop_event", "server.start_io_sync"]
     assumptions = ["request ids pairwise distinct among incoming requests (exactly-once clause)",
                    "handler_codes_int32: JSON-RPC codes raised by request handlers are int32 (outside it the real endpoint "
                    "sends no reply, C07 finding wide-own-code, and the model over-approximates); the generators draw "
@@ -650,7 +659,7 @@ class C09(core.Property):
                 res = pool.map(_run_sched_one, sc, chunksize=16)
         for k, r in zip(si, res):
             out[k] = r
-        return out
+        return priv.collect(out)
 
     # ---------------------------------------------------------------- model
     def model_input(self, case):
